@@ -120,6 +120,13 @@ theorem phonon_corner_frequencies {K E : Type} [Field K] {A : Type} [AddCommGrou
   funext a b
   exact parallelepiped_corner_hamiltonian hex N h1 h2 h3 χ hper Finv hF m hm km kK h hχ χd hχd ix iy iz (entries a b)
 
+/-- T3c.  The map must be applied exactly ONCE: it is not idempotent (`16 ↦ 4 ↦ 2`, `−16 ↦ −4 ↦ −2`), so corner values that
+    are converted a second time are no longer the frequencies at the corner k-points (nor in the units of the centre values). -/
+theorem phonon_map_not_idempotent :
+    phononFreq sqrtExact (16 : Rat) = 4 ∧ phononFreq sqrtExact (phononFreq sqrtExact (16 : Rat)) = 2 ∧
+    phononFreq sqrtExact (phononFreq sqrtExact (-16 : Rat)) = -2 := by
+  decide +kernel
+
 /-! ## T4 — k.p systems -/
 
 /-- T4.  `Data_K_k.E_K_corners_*` evaluates the user's Hamiltonian at `fold((p + dK) mod 1 + v)`; this is the direct
